@@ -22,6 +22,7 @@ import builtins
 import errno
 import io
 import os
+import re
 import sys
 
 from . import kernel
@@ -59,7 +60,10 @@ def _count(op: str, path, creating):
         return None
     if isinstance(p, bytes):
         p = os.fsdecode(p)
-    ap = os.path.abspath(p)
+    try:
+        ap = os.path.abspath(p)
+    except OSError:
+        return None  # (a relative name while the current directory does not exist any more: the operation fails by itself)
     if not ap.startswith(sim.world.root + os.sep):
         return None
     if not creating(ap):
@@ -68,6 +72,9 @@ def _count(op: str, path, creating):
         return None
     d = sim.diskfault
     rel = sim.world.norm(ap)
+    if rel.startswith('$W/io/'):
+        # temporary files carry names that tempfile draws from os.urandom: never part of a log
+        rel = '$W/io/' + re.sub(r'[a-z0-9_]{8}$', '<random>', rel[len('$W/io/'):])
     if d.get('at', 'create') != 'create':
         return rel  # (owned creation inside the world: the caller wraps the file)
     _numbered(sim, d, op, rel, p)
@@ -80,6 +87,11 @@ def _numbered(sim, d, op, rel, p, before_raising=None):
     if d['seen'] == d['nth'] and not d['fired']:
         d['fired'] = True
         d['op'], d['path'] = op, rel
+        try:
+            cwd = os.getcwd()
+            d['in_sandbox'] = any(cwd == sb or cwd.startswith(sb + os.sep) for sb in sim.sandboxes)
+        except OSError:
+            d['in_sandbox'] = True  # the current directory has been removed (by a child): only possible inside the sandbox
         d['seq'] = sim.ev('diskfault', op=op, path=rel, errno=d['errno'], n=d['seen'])
         sim.counts['diskfault_fired'] += 1
         if before_raising is not None:
@@ -141,7 +153,8 @@ def _new(ap):
 
 def _open(file, mode='r', *a, **k):
     rel = None
-    if not isinstance(file, int) and isinstance(mode, str) and any(c in mode for c in 'wxa+'):
+    # (with an `opener`, the creation is the opener's os.open - counted there: tempfile.TemporaryFile)
+    if not isinstance(file, int) and isinstance(mode, str) and any(c in mode for c in 'wxa+') and k.get('opener') is None:
         sim = kernel.CUR
         wrapping = sim is not None and sim.diskfault is not None and sim.diskfault.get('at', 'create') != 'create'
         rel = _count('create', file, (lambda ap: True) if (wrapping or 'w' in mode or 'x' in mode) else _new)
